@@ -178,6 +178,23 @@ def tlc_mc(family, module, cfg, workers=8, timeout=1800, coverage=True, tag=None
     return dict(generated=gen, states=dist, transitions=gen, violated=violated, out=out, uncovered=sorted(set(uncovered)), wall=wall)
 
 
+def apalache_check(family, module, args, timeout=1200, tag="apalache"):
+    """apalache-mc check ... (symbolic, bounded in set cardinality but not in values).  Returns "ok" | "error" (a counterexample
+    was found); anything else (type error, timeout, crash) is a ToolError."""
+    outdir = os.path.join(workdir("apalache"), tag)
+    cmd = ["timeout", str(timeout), "apalache-mc", "check", f"--out-dir={outdir}"] + list(args) + [module]
+    t0 = time.time()
+    p = subprocess.run(cmd, cwd=os.path.join(TLA, family), stdout=subprocess.PIPE, stderr=subprocess.STDOUT, text=True)
+    out = p.stdout
+    shutil.rmtree(outdir, ignore_errors=True)
+    if "The outcome is: NoError" in out:
+        return "ok", time.time() - t0
+    if "The outcome is: Error" in out:
+        return "error", time.time() - t0
+    sys.stdout.write(out[-3000:])
+    raise ToolError(f"apalache-mc failed on {family}/{module} {' '.join(args)} (exit {p.returncode})")
+
+
 def tlc_emit(family, module, cfg, workers=8, timeout=1800, tag=None):
     """Run TLC and collect the JSON behaviours it prints as <<"REPLAY", "...">>."""
     rc, out, wall = _tlc(os.path.join(TLA, family), module, cfg, workers, timeout,
